@@ -307,8 +307,10 @@ pub fn rand_update(r: &mut R, t: &Tab, part: i64, nparts: i64) -> Stmt {
         if used.contains(&i) { continue; }
         used.push(i);
         let c = &t.def.cols[i];
+        // a NOT NULL column only receives literals: an UPDATE that fails at its k-th row keeps the rows before it
+        // (findings UpdateStampsCreator + statement not atomic), which the specification does not reproduce
         let e = match c.ty {
-            Ty::Int => if r.random_bool(0.5) { int_expr(r, &sc, 1) } else { E::Lit(rand_val(r, &Ty::Int, !c.nn)) },
+            Ty::Int => if !c.nn && r.random_bool(0.5) { int_expr(r, &sc, 1) } else { E::Lit(rand_val(r, &Ty::Int, !c.nn)) },
             _ => E::Lit(rand_val(r, &c.ty, !c.nn)),
         };
         set.push((i + 1, c.name.clone(), e));
@@ -433,6 +435,316 @@ fn seg_txn(run: &mut Runner, r: &mut R) {
     for t in &tabs { run.auto(&Stmt::Select(select_all(t))); }
 }
 
+
+/// C05, exhaustive small scope: every expression of a fixed two-level grammar over a grid table.
+/// The enumeration is cut into slices; slice = segment index, so a run of n segments covers n slices.
+fn expr_pool() -> (Tab, Vec<E>, Vec<E>) {
+    let def = TableDef { name: "g".into(), cols: vec![
+        ColDef { name: "id".into(), ty: Ty::Int, nn: false }, ColDef { name: "a".into(), ty: Ty::Int, nn: false },
+        ColDef { name: "b".into(), ty: Ty::Int, nn: false }, ColDef { name: "s".into(), ty: Ty::Text, nn: false },
+        ColDef { name: "f".into(), ty: Ty::Bool, nn: false }], uniq: vec![] };
+    let t = Tab { def, next_id: 1, ids: vec![], updatable: true };
+    let a = || col(&t, "g", 1, 0);
+    let b = || col(&t, "g", 2, 0);
+    let sc = || col(&t, "g", 3, 0);
+    let f = || col(&t, "g", 4, 0);
+    let li = |i: i64| E::Lit(V::Int(i));
+    let bx = |e: E| Box::new(e);
+    let mut ints: Vec<E> = vec![a(), b(), li(0), li(1), li(-1), li(2), E::Lit(V::Null)];
+    for op in ["add", "sub", "mul"] {
+        ints.push(E::Bin(op, bx(a()), bx(b())));
+        ints.push(E::Bin(op, bx(a()), bx(li(2))));
+        ints.push(E::Bin(op, bx(li(1)), bx(b())));
+    }
+    ints.push(E::Bin("div", bx(a()), bx(li(2))));
+    ints.push(E::Bin("mod", bx(a()), bx(li(2))));
+    ints.push(E::Bin("div", bx(b()), bx(li(-2))));
+    ints.push(E::Neg(bx(a())));
+    ints.push(E::Neg(bx(E::Bin("sub", bx(a()), bx(b())))));
+    ints.push(E::Bin("mul", bx(E::Bin("add", bx(a()), bx(li(1)))), bx(b())));
+    ints.push(E::Bin("sub", bx(a()), bx(E::Bin("sub", bx(b()), bx(li(1))))));
+    let mut atoms: Vec<E> = vec![f(), E::Lit(V::Bool(true)), E::Lit(V::Bool(false)), E::Lit(V::Null)];
+    for op in ["eq", "ne", "lt", "le", "gt", "ge"] {
+        for (i, l) in ints.iter().enumerate() {
+            for (j, r) in ints.iter().enumerate() {
+                // keep a column on at least one side (constant subtrees are folded by the parser) and thin the product
+                let has_col = |e: &E| !matches!(e, E::Lit(_));
+                if !(has_col(l) || has_col(r)) || (i + 2 * j) % 3 != 0 { continue; }
+                atoms.push(E::Bin(op, bx(l.clone()), bx(r.clone())));
+            }
+        }
+        atoms.push(E::Bin(op, bx(sc()), bx(E::Lit(V::Text("ab".into())))));
+        atoms.push(E::Bin(op, bx(sc()), bx(E::Lit(V::Text("".into())))));
+    }
+    for neg in [false, true] {
+        for c in [a(), b(), sc(), f()] { atoms.push(E::IsNull(bx(c), neg)); }
+        for x in [a(), E::Bin("add", bx(a()), bx(b()))] {
+            atoms.push(E::Between(bx(x.clone()), bx(li(0)), bx(li(2)), neg));
+            atoms.push(E::Between(bx(x.clone()), bx(b()), bx(li(2)), neg));
+            atoms.push(E::Between(bx(x.clone()), bx(li(-1)), bx(E::Lit(V::Null)), neg));
+            atoms.push(E::In(bx(x.clone()), vec![li(0), li(2)], neg));
+            atoms.push(E::In(bx(x.clone()), vec![li(1), E::Lit(V::Null)], neg));
+            atoms.push(E::In(bx(x.clone()), vec![b(), li(-1), li(3)], neg));
+        }
+        for p in ["a%", "%b", "_", "%", "a_", "", "_b%"] { atoms.push(E::Like(bx(sc()), bx(E::Lit(V::Text(p.into()))), neg)); }
+    }
+    (t, ints, atoms)
+}
+
+fn seg_exprs(run: &mut Runner, seg: u64, nslices: u64) -> usize {
+    run.reset(default_cfg());
+    let (t, ints, atoms) = expr_pool();
+    run.auto(&Stmt::Create(t.def.clone()));
+    // grid population: a, b over {NULL,-1,0,2} x {NULL,0,1,3}; s and f cycle
+    let av = [V::Null, V::Int(-1), V::Int(0), V::Int(2)];
+    let bv = [V::Null, V::Int(0), V::Int(1), V::Int(3)];
+    let sv = [V::Text("ab".into()), V::Null, V::Text("".into()), V::Text("b".into()), V::Text("a".into())];
+    let fv = [V::Bool(true), V::Bool(false), V::Null];
+    let mut id = 0;
+    let mut rows = vec![];
+    for x in &av { for y in &bv { id += 1; rows.push(vec![V::Int(id), x.clone(), y.clone(), sv[(id as usize) % 5].clone(), fv[(id as usize) % 3].clone()]); } }
+    for chunk in rows.chunks(4) {
+        run.auto(&Stmt::Insert { tbl: "g".into(), cols: (0..5).map(|i| (i + 1, t.def.cols[i].name.clone())).collect(), rows: chunk.to_vec() });
+    }
+    let idc = col(&t, "g", 0, 0);
+    let mk = |wher: E, proj: Vec<Proj>, full: bool| Select { from: from_single(&t), wher, has_where: true, agg: false, group: vec![], proj, distinct: false, order: vec![], limit: -1, offset: 0, full_parens: full };
+    let mut idx: u64 = 0;
+    let mut done = 0;
+    let mut emit = |run: &mut Runner, s: Select| { idx += 1; if idx % nslices == seg % nslices && !run.hung { run.auto(&Stmt::Select(s)); done += 1; } };
+    // level 1: every atom as WHERE, and as a projected value
+    for at in &atoms {
+        emit(run, mk(at.clone(), vec![Proj::E(idc.clone())], false));
+        emit(run, mk(lit_true(), vec![Proj::E(idc.clone()), Proj::E(at.clone())], false));
+    }
+    for ie in &ints { if !matches!(ie, E::Lit(_)) { emit(run, mk(lit_true(), vec![Proj::E(idc.clone()), Proj::E(ie.clone())], false)); } }
+    // level 2: connectives over pairs of atoms (thinned), printed with minimal parentheses
+    let n = atoms.len();
+    for i in 0..n {
+        emit(run, mk(E::Not(Box::new(atoms[i].clone())), vec![Proj::E(idc.clone())], false));
+        for j in 0..n {
+            if (i * 7 + j * 3) % 11 != 0 { continue; }
+            for op in ["and", "or"] {
+                let e = E::Bin(op, Box::new(atoms[i].clone()), Box::new(atoms[j].clone()));
+                emit(run, mk(e.clone(), vec![Proj::E(idc.clone())], false));
+                if (i + j) % 5 == 0 {
+                    // level 3: NOT over a connective, and mixed AND/OR nesting on both sides (precedence)
+                    emit(run, mk(E::Not(Box::new(e.clone())), vec![Proj::E(idc.clone())], false));
+                    let k = (i + 3 * j) % n;
+                    let other = if op == "and" { "or" } else { "and" };
+                    emit(run, mk(E::Bin(other, Box::new(e.clone()), Box::new(atoms[k].clone())), vec![Proj::E(idc.clone())], false));
+                    emit(run, mk(E::Bin(other, Box::new(atoms[k].clone()), Box::new(e.clone())), vec![Proj::E(idc.clone())], false));
+                    emit(run, mk(lit_true(), vec![Proj::E(idc.clone()), Proj::E(E::Bin(other, Box::new(E::Not(Box::new(atoms[k].clone()))), Box::new(e)))], false));
+                }
+            }
+        }
+    }
+    done
+}
+
+/// C03: statement- and batch-level atomicity, rollback of every statement kind
+fn seg_atom(run: &mut Runner, r: &mut R) {
+    run.reset(default_cfg());
+    let mut tabs: Vec<Tab> = vec![rand_table(r, "t1", true), rand_table(r, "t2", false)];
+    for t in tabs.iter_mut() {
+        run.auto(&Stmt::Create(t.def.clone()));
+        let n = r.random_range(3..9);
+        populate(run, r, t, n);
+    }
+    let n = r.random_range(12..30);
+    for _ in 0..n {
+        if run.hung { return; }
+        let ti = r.random_range(0..tabs.len());
+        match r.random_range(0..10) {
+            // autocommit multi-row INSERT whose last row breaks a constraint: nothing of it may stay
+            0 | 1 => { let s = rand_insert(r, &mut tabs[ti], 0, 1, true); let o = run.auto(&s); if o.is_ok() { note_insert(&mut tabs[ti], &s); } }
+            // batch of DML, sometimes with a failing statement at a random position
+            2 | 3 | 4 => {
+                let k = r.random_range(1..5);
+                let fail_at = if r.random_bool(0.5) { Some(r.random_range(0..k)) } else { None };
+                let mut qs = vec![];
+                let mut inserted = vec![];
+                for i in 0..k {
+                    let tj = r.random_range(0..tabs.len());
+                    let st = if Some(i) == fail_at {
+                        match r.random_range(0..3) {
+                            0 => Stmt::Insert { tbl: "nosuch".into(), cols: vec![(1, "id".into())], rows: vec![vec![V::Int(1)]] },
+                            1 if !tabs[0].ids.is_empty() => { let id = *pick(r, &tabs[0].ids); Stmt::Insert { tbl: "t1".into(), cols: vec![(1, "id".into()), (2, "c1".into())], rows: vec![vec![V::Int(id), V::Int(0)]] } }
+                            _ => Stmt::Delete { tbl: "nosuch".into(), wher: lit_true(), has_where: false },
+                        }
+                    } else {
+                        match r.random_range(0..3) {
+                            0 => { let s = rand_insert(r, &mut tabs[tj], 0, 1, false); inserted.push((tj, s.clone())); s }
+                            1 if tabs[tj].updatable => rand_update(r, &tabs[tj], 0, 1),
+                            _ if !tabs[tj].updatable => rand_delete(r, &tabs[tj], 0, 1),
+                            _ => Stmt::Select(select_all(&tabs[tj])),
+                        }
+                    };
+                    if matches!(st, Stmt::Select(_)) { continue; }
+                    qs.push(st);
+                }
+                if qs.is_empty() { continue; }
+                let o = run.batch(&qs);
+                if o.is_ok() { for (tj, s) in inserted { note_insert(&mut tabs[tj], &s); } }
+            }
+            // a session doing several statements, then rollback / drop / commit
+            5 | 6 | 7 => {
+                if run.begin(1).is_ok() {
+                    let k = r.random_range(1..5);
+                    let mut ins = vec![];
+                    for _ in 0..k {
+                        let tj = r.random_range(0..tabs.len());
+                        let st = match r.random_range(0..4) {
+                            0 | 1 => { let s = rand_insert(r, &mut tabs[tj], 0, 1, false); ins.push((tj, s.clone())); s }
+                            2 if tabs[tj].updatable => rand_update(r, &tabs[tj], 0, 1),
+                            _ if !tabs[tj].updatable => rand_delete(r, &tabs[tj], 0, 1),
+                            _ => Stmt::Select(select_all(&tabs[tj])),
+                        };
+                        run.stmt(1, &st);
+                        if r.random_range(0..4) == 0 { run.stmt(1, &Stmt::Opaque { sql: "SELEC nonsense FROM".into(), ro: true }); }
+                        if r.random_range(0..4) == 0 { run.stmt(1, &Stmt::Insert { tbl: "nosuch".into(), cols: vec![(1, "id".into())], rows: vec![vec![V::Int(1)]] }); }
+                    }
+                    match r.random_range(0..3) {
+                        0 => { if run.commit(1).is_ok() { for (tj, s) in ins { note_insert(&mut tabs[tj], &s); } } }
+                        1 => { run.rollback(1); }
+                        _ => { run.drop_session(1); }
+                    }
+                }
+            }
+            _ => { let s = rand_delete(r, &tabs[ti], 0, 1); run.auto(&s); }
+        }
+        for t in &tabs { run.auto(&Stmt::Select(select_all(t))); }
+    }
+}
+
+/// C04: long-lived readers repeat their reads while writers commit and roll back in between
+fn seg_snap(run: &mut Runner, r: &mut R) {
+    run.reset(default_cfg());
+    let u = r.random_bool(0.5);
+    let mut t = rand_table(r, "t1", u);
+    run.auto(&Stmt::Create(t.def.clone()));
+    let n0 = r.random_range(3..10);
+    populate(run, r, &mut t, n0);
+    let sc_all = Stmt::Select(select_all(&t));
+    let nparts = 4i64;
+    let mut readers: Vec<u32> = vec![];
+    let n = r.random_range(20..45);
+    for _ in 0..n {
+        if run.hung { return; }
+        let c = r.random_range(0..100);
+        if c < 12 && readers.len() < 2 {
+            let s = if readers.contains(&1) { 2 } else { 1 };
+            if run.begin(s).is_ok() { readers.push(s); run.stmt(s, &sc_all); }
+        } else if c < 18 && !readers.is_empty() {
+            let s = readers.remove(0);
+            if r.random_bool(0.5) { run.commit(s); } else { run.rollback(s); }
+        } else if c < 55 {
+            // a writer transaction: session 3, a few statements on its partition, then commit or rollback
+            if run.begin(3).is_ok() {
+                let k = r.random_range(1..4);
+                let mut ins = vec![];
+                for _ in 0..k {
+                    let st = match r.random_range(0..3) {
+                        0 | 1 => { let s = rand_insert(r, &mut t, 3, nparts, false); ins.push(s.clone()); s }
+                        _ => rand_delete(r, &t, 3, nparts),
+                    };
+                    run.stmt(3, &st);
+                    for s in readers.clone() { if r.random_bool(0.5) { run.stmt(s, &sc_all); } }
+                }
+                if r.random_bool(0.65) { if run.commit(3).is_ok() { for s in ins { note_insert(&mut t, &s); } } } else { run.rollback(3); }
+            }
+        } else if c < 70 {
+            let st = if r.random_bool(0.5) { let s = rand_insert(r, &mut t, 0, nparts, false); s } else { rand_delete(r, &t, 0, nparts) };
+            let o = run.auto(&st);
+            if o.is_ok() { note_insert(&mut t, &st); }
+        }
+        // every open reader repeats its read: same snapshot, same answer
+        for s in readers.clone() {
+            if r.random_bool(0.7) { run.stmt(s, &sc_all); } else { let q = rand_select(r, std::slice::from_ref(&t), false); run.stmt(s, &Stmt::Select(q)); }
+        }
+    }
+    for s in readers { run.commit(s); }
+    run.auto(&sc_all);
+}
+
+/// C07: constraint histories - duplicates, delete + re-insert, rolled-back inserts, vacuum, index creation after the data
+fn seg_uniq(run: &mut Runner, r: &mut R) {
+    run.reset(default_cfg());
+    let two_col = r.random_bool(0.4);
+    let late_index = r.random_bool(0.35);
+    let mut t = rand_table(r, "t1", false);
+    t.def.cols[1].nn = two_col || r.random_bool(0.5); // no NULL in a UNIQUE column: finding NullInUniqueColumnRejected
+    let ucols: Vec<usize> = if two_col { vec![1, 2] } else { vec![1] };
+    if !late_index { t.def.uniq = vec![ucols.clone()]; }
+    t.updatable = false;
+    run.auto(&Stmt::Create(t.def.clone()));
+    let sel = Stmt::Select(select_all(&t));
+    let mut indexed = !late_index;
+    let mut keys: Vec<(i64, i64)> = vec![]; // (id, c1) pairs believed live
+    let ins = |id: i64, c1: i64, t: &Tab, r: &mut R| -> Stmt {
+        let mut row = vec![V::Int(id), V::Int(c1)];
+        let mut cols = vec![(1usize, "id".to_string()), (2usize, "c1".to_string())];
+        for i in 2..t.def.cols.len() { cols.push((i + 1, t.def.cols[i].name.clone())); row.push(rand_val(r, &t.def.cols[i].ty, !t.def.cols[i].nn)); }
+        Stmt::Insert { tbl: "t1".into(), cols, rows: vec![row] }
+    };
+    if late_index {
+        // duplicate-free prefix, then the index (a rejected CREATE UNIQUE INDEX leaves a dangling index or panics:
+        // finding FailedCreateIndexUnclean), then the history proper
+        let k = r.random_range(0..6);
+        for _ in 0..k { let id = t.next_id; t.next_id += 1; let c1 = r.random_range(0..4); let st = ins(id, c1, &t, r); if run.auto(&st).is_ok() { keys.push((id, c1)); } }
+        if r.random_bool(0.3) { run.vacuum(); }
+        let o = run.auto(&Stmt::Index { name: "t1_u".into(), tbl: "t1".into(), cols: ucols.iter().map(|c| (*c, t.def.cols[*c - 1].name.clone())).collect() });
+        if o.is_ok() { indexed = true; }
+        run.auto(&sel);
+    }
+    let n = r.random_range(18..40);
+    for _ in 0..n {
+        if run.hung { return; }
+        let fresh_id = t.next_id; 
+        match r.random_range(0..12) {
+            0 | 1 | 2 => { // fresh key
+                t.next_id += 1;
+                let c1 = r.random_range(0..4);
+                let st = ins(fresh_id, c1, &t, r);
+                if run.auto(&st).is_ok() { keys.push((fresh_id, c1)); }
+            }
+            3 | 4 if !keys.is_empty() => { // duplicate of a live key (rejected once the constraint exists); with two columns also a near miss
+                let (id, c1) = *pick(r, &keys);
+                let c1b = if two_col && r.random_bool(0.5) { c1 + 5 } else { c1 };
+                let st = ins(id, c1b, &t, r);
+                if run.auto(&st).is_ok() { keys.push((id, c1b)); }
+            }
+            5 if !keys.is_empty() => { // delete then re-insert the same key
+                let (id, c1) = keys.remove(r.random_range(0..keys.len()));
+                let idc = col(&t, "t1", 0, 0);
+                run.auto(&Stmt::Delete { tbl: "t1".into(), wher: E::Bin("eq", Box::new(idc), Box::new(E::Lit(V::Int(id)))), has_where: true });
+                keys.retain(|k| k.0 != id);
+                if r.random_bool(0.7) { let st = ins(id, c1, &t, r); if run.auto(&st).is_ok() { keys.push((id, c1)); } }
+            }
+            6 | 7 => { // a session inserts fresh keys and rolls back; the keys must be free afterwards
+                if run.begin(1).is_ok() {
+                    t.next_id += 1;
+                    let c1 = r.random_range(0..4);
+                    let st = ins(fresh_id, c1, &t, r);
+                    run.stmt(1, &st);
+                    run.stmt(1, &sel);
+                    if r.random_bool(0.6) { run.rollback(1); let again = ins(fresh_id, c1, &t, r); if run.auto(&again).is_ok() { keys.push((fresh_id, c1)); } }
+                    else if run.commit(1).is_ok() { keys.push((fresh_id, c1)); }
+                }
+            }
+            8 => { // NOT NULL
+                t.next_id += 1;
+                let mut st = ins(fresh_id, 0, &t, r);
+                if let Stmt::Insert { rows, .. } = &mut st { rows[0][1] = V::Null; }
+                if run.auto(&st).is_ok() { keys.push((fresh_id, -99)); }
+            }
+            9 => { run.auto(&Stmt::Select(rand_select(r, std::slice::from_ref(&t), false))); }
+            10 => { run.vacuum(); }
+            _ => { run.auto(&Stmt::Select(rand_select(r, std::slice::from_ref(&t), false))); }
+        }
+        run.auto(&sel);
+    }
+}
+
 pub fn main(a: &Args) -> i32 {
     crate::eng::install_panic_hook();
     let seed = a.num("seed", 1);
@@ -443,16 +755,21 @@ pub fn main(a: &Args) -> i32 {
     let mut run = Runner::new(dir, Trace::create(&out));
     let mut r = util::rng(seed, 1);
     let mut done = 0;
+    let mut extra = 0usize;
     for _ in 0..segments {
         match kind.as_str() {
             "sql" => seg_sql(&mut run, &mut r),
             "txn" => seg_txn(&mut run, &mut r),
+            "exprs" => { let n = seg_exprs(&mut run, (seed + done as u64) % 240, 240); extra += n; }
+            "atom" => seg_atom(&mut run, &mut r),
+            "snap" => seg_snap(&mut run, &mut r),
+            "uniq" => seg_uniq(&mut run, &mut r),
             other => { eprintln!("unknown kind {other}"); return 2; }
         }
         if run.hung { break; }
         done += 1;
     }
     let (events, stmts, errors, panics, hung) = run.finish();
-    println!("{}", json!({"kind": kind, "segments": done, "events": events, "stmts": stmts, "errors": errors, "panics": panics, "hung": hung}));
+    println!("{}", json!({"kind": kind, "segments": done, "events": events, "stmts": stmts, "errors": errors, "panics": panics, "hung": hung, "enumerated": extra}));
     0
 }
